@@ -88,8 +88,8 @@ func (a *acc) out(route, class string, s *spec) {
 
 func (a *acc) fail(in caseIn, s *spec, kind, stage, cause, what, observed, expected string) {
 	sig := kind + ":" + stage + ":" + cause
-	if s.leafOf().class == "named-key-map" {
-		sig += "[map-key]" // same message as a named value, different site (MapConverter)
+	if s.leafOf().class == "named-key-map" && strings.HasPrefix(cause, "assert(named-basic") {
+		sig += "[map-key]" // same message as for a named value, but a different site (MapConverter.From asserts string keys)
 	}
 	a.ord++
 	if f, ok := a.Finds[sig]; ok {
@@ -101,7 +101,6 @@ func (a *acc) fail(in caseIn, s *spec, kind, stage, cause, what, observed, expec
 		fmt.Printf("  FAIL %s\n       %s\n       observed: %s\n", sig, what, observed)
 	}
 }
-
 
 var ctx = context.Background()
 
@@ -193,6 +192,9 @@ func wrongType(x, y string) string {
 	}
 	bx, by := strings.TrimLeft(x, "*"), strings.TrimLeft(y, "*")
 	cx, cy := tclass(bx), tclass(by)
+	if cx == "map" && cy == "map" {
+		return "string-key-for-named-key-map"
+	}
 	switch cy {
 	case "named-basic", "duration", "named-composite", "named-struct":
 		if cx != cy {
@@ -951,7 +953,7 @@ func Check(r *ev.Run, replay string) {
 	r.Set("misfit_cases", len(us)-nVals)
 	r.Set("method_holder_types", len(holders))
 	r.Set("workers", n)
-	r.Set("rule", fmt.Sprintf("every Go type built from %d leaf types (14 basic kinds, 14 named twins, time.Time, time.Duration, []byte, error, any, 4 named composites) under <= %d constructors from {pointer, slice, array[2], map[string]T, struct{F T}, interface holding T} = %d types; every value from {zero, nil where legal, min, max, ordinary, empty} propagated through each constructor = %d (type, value) cases; each through the routes global (+typed back), field-read, field-write x {value from a Go field, script-built object}, method Echo(T) T x {same two sources} for the %d statically instantiated holder types; plus every type with <= %d constructors (%d) x %d possibly ill-fitting script objects written to a field / passed to a method (no-panic only). distinct = distinct (route, outcome class, constructor chain, leaf class) tuples",
+	r.Set("rule", fmt.Sprintf("every Go type built from %d leaf types (14 basic kinds, 14 named twins, time.Time, time.Duration, []byte, error, any, 4 named composites, map[NString]int) under <= %d constructors from {pointer, slice, array[2], map[string]T, struct{F T}, interface holding T} = %d types; every value from {zero, nil where legal, min, max, ordinary, empty} propagated through each constructor = %d (type, value) cases; each through the routes global (+typed back), field-read, field-write x {value from a Go field, script-built object}, method Echo(T) T x {same two sources} for the %d statically instantiated holder types; plus every type with <= %d constructors (%d) x %d possibly ill-fitting script objects written to a field / passed to a method (no-panic only). distinct = distinct (route, outcome class, constructor chain, leaf class) tuples",
 		len(leaves()), vd, nSpecs, nVals, len(holders), md, nMis, len(misfits)))
 	r.Assumptions = []string{
 		"composite values are one wrapping per element value (slice/array [v, zero], map {k: v}, struct {F: v}, &v, boxed v) plus nil/empty; not all combinations of element values",
